@@ -232,10 +232,16 @@ Definition lm (tol : Qc) (m : res (list Qc)) (o : obs (list Qc)) : bool := res_m
                                                               alpha=c["alpha"], **kw)
                     o = {"out": np.asarray(r, dtype=float).tolist(), "kind_out": type(r).__name__, "input_changed": not np.array_equal(y, y0)}
                     # second pass on the result (idempotence)
-                    r2 = M.integral_matching_reference_stretch(x, np.asarray(r, dtype=float), np.array(c["xr"], dtype=float), np.array(c["yr"], dtype=float),
+                    yin2 = np.asarray(r, dtype=float)
+                    r2 = M.integral_matching_reference_stretch(x, yin2, np.array(c["xr"], dtype=float), np.array(c["yr"], dtype=float),
                                                                target_function_integral_method=c["rt"], reference_function_integral_method=c["rr"],
                                                                alpha=c["alpha"], **kw)
                     o["out2"] = np.asarray(r2, dtype=float).tolist()
+                    # a result is a value of its own: the caller goes on writing to the array it handed in (here: the first result,
+                    # handed in for the second pass), and what was returned stays what it was
+                    if isinstance(r2, np.ndarray) and isinstance(r, np.ndarray):
+                        yin2 += 1.0
+                        o["aliased"] = bool(np.asarray(r2, dtype=float).tolist() != o["out2"]) or bool(isinstance(y, np.ndarray) and np.shares_memory(r, y))
                     return o
             return {"out": np.asarray(r, dtype=float).tolist(), "kind_out": type(r).__name__, "input_changed": not np.array_equal(y, y0)}
         except Exception as e:
@@ -262,6 +268,25 @@ Definition lm (tol : Qc) (m : res (list Qc)) (o : obs (list Qc)) : bool := res_m
         if not all_finite(o["out"]):
             return "lm 0 (%s) (OExn NonFinite)" % call
         tol = tol_for(c["y"] + o["out"] + c.get("targets", []) + [c.get("target", 0)] + c.get("yr", []), rel=2.0 ** -26)
+        if c["alpha"] < 1 and len(c["x"]) == len(o["out"]) == len(c["y"]):
+            # conditioning (DESIGN 3.6): t -> t^alpha with alpha < 1 is not Lipschitz at 0, i.e. at the centre of a window. The model
+            # evaluates the profile on the exact rational values of the abscissae, the code in floats: when the rounded centre
+            # (x[a] + x[b]) / 2 coincides with a sample whose exact distance from the exact centre is 1e-16, the two arguments of the
+            # power differ by d ~ 1e-16 and the powers by d^alpha ~ 1e-8 — times the displacement applied. Zero on dyadic grids.
+            xs = [float(v) for v in c["x"]]
+            fx = [Fraction(v) for v in xs]
+            d = Fraction(0)
+            wins = [(0, len(xs) - 1)] if c["kind"] == "kernel" else [(a, b) for a in range(len(xs)) for b in range(a + 2, len(xs))]
+            for a, b in wins:
+                if xs[b] == xs[a]:
+                    continue
+                mid_f, dx_f = (xs[b] + xs[a]) / 2, xs[b] - xs[a]
+                mid_e, dx_e = (fx[b] + fx[a]) / 2, fx[b] - fx[a]
+                for i in range(a, b + 1):
+                    d = max(d, abs(Fraction(2 * abs(mid_f - xs[i]) / dx_f) - 2 * abs(mid_e - fx[i]) / dx_e))
+            if d > 0:
+                disp = max(abs(float(a_) - float(b_)) for a_, b_ in zip(o["out"], c["y"]))
+                tol = "(%s + %s)" % (tol, q(Fraction(64 * disp * float(d) ** c["alpha"])))
         return "lm %s (%s) (OVal %s)" % (tol, call, qlist(o["out"], qa))
 
     # ------------------------------------------------------------------ oracle
@@ -316,6 +341,8 @@ Definition lm (tol : Qc) (m : res (list Qc)) (o : obs (list Qc)) : bool := res_m
             return F
         if o["input_changed"]:
             fail("C03", "input-mutated", "the caller's y array was modified")
+        if o.get("aliased"):
+            fail("C03", "result-aliases-input", "matching the already matched series returned the caller's own array: writing to that array afterwards changed the returned result")
         if not judged or not all_finite(out):
             return F
         ref = integ(c["rr"], c["xr"], c["yr"])
